@@ -61,9 +61,23 @@ def _expected_obs(M: Model, case: Dict[str, Any], pre: Optional[Dict[str, Any]] 
     R = prog.Ref(selected=M.selected, run_debug=bool(case.get("debug")), pre=pre)
     try:
         prog.ref_run(M.P, [prog.dec(a) for a in case.get("args", [])], R)
-    except (prog.MissingArg, prog.RefError):
+    except (prog.MissingArg, prog.RefError, KeyError, IndexError):
         pass
     return {M.site_of_key.get(k, k): (a, kw) for (_f, k, a, kw) in R.obs}
+
+
+def bad_index_sites(P: Dict[str, Any]) -> Set[str]:
+    """Sites one of whose arguments / flag indexes a pair with element 7 (generated on purpose)."""
+    out: Set[str] = set()
+    for s in P["body"]:
+        if s["k"] != "call":
+            continue
+        for e in list(s["args"]) + list(s["kwargs"].values()) + [s.get("active")]:
+            while e is not None and e[0] == "i":
+                if e[2] == 7:
+                    out.add(s["site"])
+                e = e[1]
+    return out
 
 
 # ------------------------------------------------------------------------------------ C02
@@ -72,9 +86,12 @@ def dep_order(T: Trace, case: Dict[str, Any]) -> List[Finding]:
     bad: List[Finding] = []
     took_part = set(T.enter)
     exp = _expected_obs(M, case, out.ref.pre if out.ref is not None else None)
+    bad_idx = bad_index_sites(M.P)
     for n, es in T.enter.items():
         if n not in M.deps:
             continue
+        if n in bad_idx and all(d in took_part for d in M.deps[n]):
+            bad.append(("entered-despite-bad-index", f"{n} was entered although one of its arguments indexes a result with a key that result does not have (plain Python raises); it received {es[0]['args']} {es[0]['kwargs']}", None))
         for e in es:
             for d in M.deps[n]:
                 if d in took_part and not T.exit_before(d, e["seq"], ok_only=False):
@@ -112,6 +129,10 @@ def bound_placement(T: Trace, case: Dict[str, Any]) -> List[Finding]:
     for e in T.ev:
         if e["k"] == "SUBMIT" and e["inflight"] > M.mc:
             bad.append(("bound-submit", f"{e['inflight']} pooled nodes submitted and unfinished > max_concurrency={M.mc}", None))
+            break
+    for e in T.ev:
+        if e["k"] == "STARVED":
+            bad.append(("dispatched-node-cannot-start", f"nodes were dispatched to a pool that has no free worker for them although at most max_concurrency={M.mc} are in flight: {e['starved']}", None))
             break
     inside: Set[str] = set()
     for e in T.ev:
@@ -249,10 +270,16 @@ def priority(T: Trace, case: Dict[str, Any], stats: Optional[Dict[str, int]] = N
 # ------------------------------------------------------------------------------------ C08
 def no_idle(T: Trace, case: Dict[str, Any], stats: Optional[Dict[str, int]] = None) -> List[Finding]:
     M, out = T.M, T.out
+    for e in T.ev:
+        if e["k"] == "STARVED":
+            return [("dispatched-node-cannot-start", f"a dispatched node sits in a queue behind busy workers instead of running in one of the max_concurrency={M.mc} slots: {e['starved']}", None)]
     if out.ex is None or out.ex.mode != "ctl" or out.ex.uncontrolled or out.ex.stalled:
         return []
     K = Know(T)
     bad: List[Finding] = []
+    for e in T.ev:
+        if e["k"] == "STARVED":
+            return [("dispatched-node-cannot-start", f"a dispatched node sits in a queue behind busy workers instead of running in one of the max_concurrency={M.mc} slots: {e['starved']}", None)]
     prev_hook_async_since_dispatch = False
     for item in K.walk():
         if item[0] == "dispatch":
